@@ -45,7 +45,7 @@ def run(tier):
                         explanation="(1) the library (mir.c, mir-gen.c, c2mir.c as one shared object) has its .data/.bss write-protected while 8 context workloads (scan/API/binary read+write/c2mir; interp, gen -O0/-O2/-O3, lazy, lazy-BB) run twice next to a live context; "
                                     "every faulting write is recorded with its symbol and single-stepped, so the set of static locations written is complete for these workloads: it must be empty. "
                                     "(2) for every ordered pair of workloads two threads run them on their own contexts under a cooperative scheduler whose scheduling points are all MIR_alloc / MIR_code_alloc callbacks; every schedule with <= 1 preemption "
-                                    "(thorough: <= 2 where the run has <= 700 points) is executed and each thread must obtain the result it obtains alone. (3) the same workloads run free in 3 threads under ThreadSanitizer (halt on first report).")
+                                    "(thorough: <= 2 where the run has <= 1400 points) is executed and each thread must obtain the result it obtains alone. (3) the same workloads run free in 3 threads under ThreadSanitizer (halt on first report).")
     rep.assumptions = ["scheduling points are the allocator callbacks only; accesses between two callbacks are covered by the write-watch (no shared library memory is written) and by the ThreadSanitizer pass",
                        "libc (malloc, stdio) is trusted to be thread-safe", "mir2c and the c2mir driver program are not part of the watched library"]
     return rep.finish()
